@@ -230,3 +230,432 @@ func idFormsDecodedIntoTheirOwnTypes(c *Ctx, rule string) {
 	c.count("id_decode_targets", n)
 	c.floor(rule, 2)
 }
+
+// locksReleasedOnEveryReturn: a function that locks a mutex and does not hand the release to a defer releases it on
+// every way out: at no return statement (and not at the end of the body) is a lock still held that the function
+// itself acquired. A return on an error path that skips the Unlock leaves the mutex locked for good: every later
+// caller blocks.
+func locksReleasedOnEveryReturn(c *Ctx, rule string, rels ...string) {
+	n := 0
+	for _, rel := range rels {
+		p := c.pkg(rel)
+		if p == nil {
+			continue
+		}
+		info := p.TypesInfo
+		for _, fd := range allFuncDecls(p) {
+			if fd.Body == nil {
+				continue
+			}
+			fc := newFnCFG(fd.Body, info)
+			if len(fc.lockOps(fd.Body)) == 0 {
+				continue
+			}
+			// locks whose release is deferred (defer m.Unlock(), or a deferred literal that unlocks)
+			deferred := map[string]bool{}
+			ast.Inspect(fd.Body, func(x ast.Node) bool {
+				ds, ok := x.(*ast.DeferStmt)
+				if !ok {
+					return true
+				}
+				ast.Inspect(ds.Call, func(m ast.Node) bool {
+					if call, ok := m.(*ast.CallExpr); ok {
+						if fn := calleeOf(info, call); fn != nil {
+							if d, ok := lockMethods[fullName(fn)]; ok && d < 0 {
+								if se, ok := ast.Unparen(call.Fun).(*ast.SelectorExpr); ok {
+									deferred[types.ExprString(se.X)+readLockSuffix(fn)] = true
+								}
+							}
+						}
+					}
+					return true
+				})
+				return true
+			})
+			// acquired here (not a helper that is meant to return with the lock held: such a helper only locks)
+			unlocksSomething := false
+			for _, op := range fc.lockOps(fd.Body) {
+				if op.d < 0 {
+					unlocksSomething = true
+				}
+			}
+			if !unlocksSomething && len(deferred) == 0 {
+				continue // a lock-and-return helper (or its counterpart): judged where it is used
+			}
+			where := funcKey(p, fd)
+			ast.Inspect(fd.Body, func(x ast.Node) bool {
+				if _, isLit := x.(*ast.FuncLit); isLit {
+					return false
+				}
+				ret, ok := x.(*ast.ReturnStmt)
+				if !ok {
+					return true
+				}
+				for k := range fc.heldAt(ret) {
+					if deferred[k] {
+						continue
+					}
+					n++
+					c.viol(rule, fmt.Sprintf("%s|returns-holding:%s", where, k), c.pos(ret.Pos()),
+						fmt.Sprintf("%s returns at %s while %s is still locked (no Unlock on this path and none deferred): the mutex stays locked and every later caller blocks forever", fd.Name.Name, c.pos(ret.Pos()), k))
+				}
+				return true
+			})
+		}
+	}
+	c.count("returns_holding_a_lock", n)
+	c.ok(rule, strings.Join(rels, ",")+"|scanned", "", fmt.Sprintf("%d returns with a lock held in %v", n, rels))
+}
+
+// laterClosuresReadNoLoopState: a function literal that is created in a loop and runs LATER — started with `go`, handed
+// to time.AfterFunc, or handed to a function of the package that does one of these with it or stores it — does not
+// read a variable that is declared outside the loop and assigned inside it: by the time the literal runs, a later round
+// has overwritten the variable, and the literal acts on that round's value (a debounced file event is delivered with
+// the name of whichever file changed last).
+func laterClosuresReadNoLoopState(c *Ctx, rule string, rels ...string) {
+	n := 0
+	for _, rel := range rels {
+		p := c.pkg(rel)
+		if p == nil {
+			continue
+		}
+		info := p.TypesInfo
+		// does the function run / keep its func-typed parameter i later?
+		var defers func(fn *types.Func, i int, depth int) bool
+		defers = func(fn *types.Func, i int, depth int) bool {
+			if fn == nil {
+				return false
+			}
+			if fullName(fn) == "time.AfterFunc" {
+				return i == 1
+			}
+			if fn.Pkg() != p.Types || depth > 2 {
+				return false
+			}
+			for _, hd := range allFuncDecls(p) {
+				if info.Defs[hd.Name] != types.Object(fn) || hd.Body == nil {
+					continue
+				}
+				ps := paramObjs(info, hd)
+				if i >= len(ps) || ps[i] == nil {
+					return false
+				}
+				later := false
+				ast.Inspect(hd.Body, func(m ast.Node) bool {
+					switch x := m.(type) {
+					case *ast.GoStmt:
+						if id, ok := ast.Unparen(x.Call.Fun).(*ast.Ident); ok && info.ObjectOf(id) == ps[i] {
+							later = true
+						}
+					case *ast.CallExpr:
+						for ai, a := range x.Args {
+							if id, ok := ast.Unparen(a).(*ast.Ident); ok && info.ObjectOf(id) == ps[i] {
+								if defers(calleeOf(info, x), ai, depth+1) {
+									later = true
+								}
+							}
+						}
+					case *ast.AssignStmt:
+						for k, r := range x.Rhs {
+							if id, ok := ast.Unparen(r).(*ast.Ident); ok && info.ObjectOf(id) == ps[i] && k < len(x.Lhs) {
+								if _, isLocal := x.Lhs[k].(*ast.Ident); !isLocal {
+									later = true // stored in a field / map / slice element
+								}
+							}
+						}
+					}
+					return true
+				})
+				return later
+			}
+			return false
+		}
+		for _, fd := range allFuncDecls(p) {
+			if fd.Body == nil {
+				continue
+			}
+			where := funcKey(p, fd)
+			var loops []ast.Stmt
+			ast.Inspect(fd.Body, func(x ast.Node) bool {
+				switch x.(type) {
+				case *ast.ForStmt, *ast.RangeStmt:
+					loops = append(loops, x.(ast.Stmt))
+				}
+				return true
+			})
+			for _, loop := range loops {
+				var body *ast.BlockStmt
+				switch l := loop.(type) {
+				case *ast.ForStmt:
+					body = l.Body
+				case *ast.RangeStmt:
+					body = l.Body
+				}
+				// variables declared outside the loop and assigned inside it
+				assigned := map[types.Object]bool{}
+				ast.Inspect(body, func(m ast.Node) bool {
+					if _, isLit := m.(*ast.FuncLit); isLit {
+						return false
+					}
+					if as, ok := m.(*ast.AssignStmt); ok && as.Tok.String() == "=" {
+						for _, l := range as.Lhs {
+							if id, ok := l.(*ast.Ident); ok {
+								if ob := info.ObjectOf(id); ob != nil && (ob.Pos() < loop.Pos() || ob.Pos() > loop.End()) {
+									if v, isVar := ob.(*types.Var); isVar && v.Parent() != p.Types.Scope() {
+										assigned[ob] = true
+									}
+								}
+							}
+						}
+					}
+					return true
+				})
+				if len(assigned) == 0 {
+					continue
+				}
+				// literals of this loop that run later
+				check := func(lit *ast.FuncLit, how string) {
+					ast.Inspect(lit.Body, func(m ast.Node) bool {
+						if id, ok := m.(*ast.Ident); ok && assigned[info.ObjectOf(id)] {
+							n++
+							c.viol(rule, fmt.Sprintf("%s|later-closure-reads:%s", where, id.Name), c.pos(id.Pos()),
+								fmt.Sprintf("%s: the function literal at %s %s, and it reads %s, which is declared outside the loop and assigned in it: when the literal runs, a later round of the loop has overwritten %s", fd.Name.Name, c.pos(lit.Pos()), how, id.Name, id.Name))
+							return false
+						}
+						return true
+					})
+				}
+				ast.Inspect(body, func(m ast.Node) bool {
+					switch x := m.(type) {
+					case *ast.GoStmt:
+						if lit, ok := ast.Unparen(x.Call.Fun).(*ast.FuncLit); ok {
+							check(lit, "is started as a goroutine")
+						}
+					case *ast.CallExpr:
+						for ai, a := range x.Args {
+							if lit, ok := ast.Unparen(a).(*ast.FuncLit); ok && defers(calleeOf(info, x), ai, 0) {
+								check(lit, "is handed to "+types.ExprString(x.Fun)+", which runs or keeps it for later")
+							}
+						}
+					}
+					return true
+				})
+			}
+		}
+	}
+	c.count("later_closures_reading_loop_state", n)
+	c.ok(rule, strings.Join(rels, ",")+"|scanned", "", fmt.Sprintf("%d in %v", n, rels))
+}
+
+// modTimesStayTimes: a file's modification time is kept and compared as a time.Time (After / Before / Equal). Turning
+// it into an integer loses what the comparison relies on: Unix() has one-second resolution (two saves within a second
+// look like one), and an integer's zero value is 1970, not "before every file" as the zero time.Time is (a file dated
+// at or before the epoch is taken as already seen).
+func modTimesStayTimes(c *Ctx, rule string, rels ...string) {
+	n := 0
+	for _, rel := range rels {
+		p := c.pkg(rel)
+		if p == nil {
+			continue
+		}
+		info := p.TypesInfo
+		for _, fd := range allFuncDecls(p) {
+			if fd.Body == nil {
+				continue
+			}
+			// locals and parameters that hold a modification time
+			isModTime := func(e ast.Expr) bool {
+				found := false
+				ast.Inspect(e, func(m ast.Node) bool {
+					if call, ok := m.(*ast.CallExpr); ok {
+						if se, ok := ast.Unparen(call.Fun).(*ast.SelectorExpr); ok && se.Sel.Name == "ModTime" && len(call.Args) == 0 {
+							found = true
+						}
+					}
+					return !found
+				})
+				return found
+			}
+			holds := map[types.Object]bool{}
+			ast.Inspect(fd.Body, func(x ast.Node) bool {
+				if as, ok := x.(*ast.AssignStmt); ok && len(as.Lhs) == len(as.Rhs) {
+					for i, l := range as.Lhs {
+						if id, ok := l.(*ast.Ident); ok && isModTime(as.Rhs[i]) {
+							if t := info.TypeOf(as.Rhs[i]); t != nil && t.String() == "time.Time" {
+								holds[info.ObjectOf(id)] = true
+							}
+						}
+					}
+				}
+				return true
+			})
+			// a time.Time parameter that some call site of the package feeds with a modification time
+			fobj := info.Defs[fd.Name]
+			for pi, prm := range paramObjs(info, fd) {
+				if prm == nil || prm.Type().String() != "time.Time" {
+					continue
+				}
+				for _, cfd := range allFuncDecls(p) {
+					if cfd.Body == nil {
+						continue
+					}
+					// what holds a modification time in the caller
+					cholds := map[types.Object]bool{}
+					ast.Inspect(cfd.Body, func(x ast.Node) bool {
+						if as, ok := x.(*ast.AssignStmt); ok && len(as.Lhs) == len(as.Rhs) {
+							for i, l := range as.Lhs {
+								if id, ok := l.(*ast.Ident); ok && isModTime(as.Rhs[i]) {
+									cholds[info.ObjectOf(id)] = true
+								}
+							}
+						}
+						return true
+					})
+					ast.Inspect(cfd.Body, func(x ast.Node) bool {
+						if call, ok := x.(*ast.CallExpr); ok && pi < len(call.Args) {
+							if fn := calleeOf(info, call); fn != nil && types.Object(fn) == fobj {
+								a := ast.Unparen(call.Args[pi])
+								if isModTime(a) {
+									holds[prm] = true
+								}
+								if id, ok := a.(*ast.Ident); ok && cholds[info.ObjectOf(id)] {
+									holds[prm] = true
+								}
+							}
+						}
+						return true
+					})
+				}
+			}
+			ast.Inspect(fd.Body, func(x ast.Node) bool {
+				call, ok := x.(*ast.CallExpr)
+				if !ok || len(call.Args) != 0 {
+					return true
+				}
+				se, ok := ast.Unparen(call.Fun).(*ast.SelectorExpr)
+				if !ok || !strings.HasPrefix(se.Sel.Name, "Unix") {
+					return true
+				}
+				if t := info.TypeOf(se.X); t == nil || t.String() != "time.Time" {
+					return true
+				}
+				src := isModTime(se.X)
+				if id, ok := ast.Unparen(se.X).(*ast.Ident); ok && holds[info.ObjectOf(id)] {
+					src = true
+				}
+				if !src {
+					return true
+				}
+				n++
+				c.viol(rule, fmt.Sprintf("%s|mod-time-as-integer:%s", funcKey(p, fd), types.ExprString(call)), c.pos(call.Pos()),
+					fmt.Sprintf("%s turns a file modification time into an integer (%s): the staleness test that uses it no longer has the resolution and the zero value of time.Time — two writes within the integer's unit look like one, and a time at or before the epoch compares as already seen", fd.Name.Name, types.ExprString(call)))
+				return true
+			})
+		}
+	}
+	c.count("mod_times_turned_into_integers", n)
+	c.ok(rule, strings.Join(rels, ",")+"|scanned", "", fmt.Sprintf("%d in %v", n, rels))
+}
+
+// upsertRecordsWhatItReports: the hash registry's test-and-set (FSEventHandler.UpsertHash) answers "changed" only on a
+// path on which it has recorded the new hash: an index store registry[key] = hash, a Store / Swap on a sync.Map, or a
+// LoadOrStore on the path where nothing was loaded. Otherwise the registry keeps an older hash, and an edit that
+// returns a file to contents it had before is taken for "unchanged": the file is not rewritten.
+func upsertRecordsWhatItReports(c *Ctx, rule string) {
+	p := c.pkg("cmd/templ/generatecmd")
+	info := p.TypesInfo
+	fd := findFunc(p, "FSEventHandler", "UpsertHash")
+	if fd == nil || fd.Body == nil {
+		c.viol(rule, "anchor-lost:UpsertHash", "", "FSEventHandler.UpsertHash (exported) not found")
+		return
+	}
+	var hashParam types.Object
+	for _, prm := range paramObjs(info, fd) {
+		if prm != nil {
+			if _, isArr := prm.Type().Underlying().(*types.Array); isArr {
+				hashParam = prm
+			}
+		}
+	}
+	key := funcKey(p, fd) + "|changed-implies-recorded"
+	if hashParam == nil {
+		c.undec(rule, key, c.pos(fd.Pos()), "UpsertHash has no hash parameter (an array of bytes)")
+		return
+	}
+	den := &denum{info: info, pkg: p.Types, inits: map[types.Object]ast.Expr{}, limit: 5000, opaqueLoops: true}
+	den.finish(den.run(fd.Body.List, []dstate{{env: map[types.Object]ast.Expr{}}}))
+	if den.undecided != "" {
+		c.undec(rule, key, c.pos(fd.Pos()), "UpsertHash contains "+den.undecided)
+		return
+	}
+	mentionsHash := func(e ast.Expr) bool {
+		hit := false
+		ast.Inspect(e, func(m ast.Node) bool {
+			if id, ok := m.(*ast.Ident); ok && info.ObjectOf(id) == hashParam {
+				hit = true
+			}
+			return !hit
+		})
+		return hit
+	}
+	bad := ""
+	ntrue := 0
+	for _, pth := range den.paths {
+		if pth.Ret == nil {
+			continue
+		}
+		ret := explicitReturn(info, pth.Ret)
+		if len(ret.Results) != 1 {
+			continue
+		}
+		r := den.deref(ret.Results[0], pth.Env)
+		if id, ok := ast.Unparen(r).(*ast.Ident); !ok || id.Name != "true" {
+			continue
+		}
+		ntrue++
+		stored := false
+		for _, st := range pth.Trace {
+			ast.Inspect(st, func(m ast.Node) bool {
+				switch x := m.(type) {
+				case *ast.AssignStmt:
+					for i, l := range x.Lhs {
+						if _, isIdx := ast.Unparen(l).(*ast.IndexExpr); isIdx && i < len(x.Rhs) && mentionsHash(x.Rhs[i]) {
+							stored = true
+						}
+					}
+				case *ast.CallExpr:
+					se, ok := ast.Unparen(x.Fun).(*ast.SelectorExpr)
+					if !ok || len(x.Args) < 2 || !mentionsHash(x.Args[len(x.Args)-1]) {
+						return true
+					}
+					switch se.Sel.Name {
+					case "Store", "Swap":
+						stored = true
+					case "LoadOrStore":
+						// stored only where nothing was loaded: the path took <call>[1] (loaded) as false
+						for _, pc := range pth.Conds {
+							if ix, ok := ast.Unparen(den.deref(pc.Expr, pth.Env)).(*ast.IndexExpr); ok && ast.Unparen(ix.X) == ast.Expr(x) && !pc.Val {
+								stored = true
+							}
+							if ue, ok := ast.Unparen(pc.Expr).(*ast.UnaryExpr); ok && pc.Val {
+								if ix, ok := ast.Unparen(den.deref(ue.X, pth.Env)).(*ast.IndexExpr); ok && ast.Unparen(ix.X) == ast.Expr(x) {
+									stored = true
+								}
+							}
+						}
+					}
+				}
+				return true
+			})
+		}
+		if !stored && bad == "" {
+			var took []string
+			for _, pc := range pth.Conds {
+				took = append(took, fmt.Sprintf("%s=%v", types.ExprString(pc.Expr), pc.Val))
+			}
+			bad = strings.Join(took, ", ")
+		}
+	}
+	c.check(bad == "" && ntrue > 0, rule, key, c.pos(fd.Pos()), fmt.Sprintf("%d path(s) answer `changed`, each after recording the new hash", ntrue),
+		fmt.Sprintf("UpsertHash answers `changed` on a path that did not record the new hash (%s): the registry keeps an older hash, so a later edit that brings the file back to those older contents is taken for unchanged and the file on disk is not rewritten", bad))
+}
